@@ -61,7 +61,9 @@ ERRMAP = {
 # --------------------------------------------------------------------------- helpers
 
 def _mk_tmp():
-    d = tempfile.mkdtemp(prefix='c15_')
+    # memory-backed scratch space when available: the check writes thousands of tiny HDF5 nodes
+    shm = '/dev/shm'
+    d = tempfile.mkdtemp(prefix='c15_', dir=shm if os.path.isdir(shm) and os.access(shm, os.W_OK) else None)
     real = os.path.realpath(d)
     assert not real.startswith('/verif') and not real.startswith('/repo'), real
     return d
@@ -475,12 +477,12 @@ def gen_blindspot_ra_cases(ctx):
     # 1. size boundaries: very long rows (> 255, > 65535 entries), 1000 / 10000 rows
     add('long-row', lens=[70000], dtype='int16', strides=[1, 3, 7])
     add('long-row', lens=[1, 66000, 2], dtype='uint8', strides=[1, 5], comp=9)
-    add('long-row', lens=[3, 40000], dtype='float32', inner=[3], strides=[1, 4], comp=0)
     add('long-row', lens=[300, 257, 256, 255], dtype='int8', strides=[1, 2, 255, 256, 257])
     if ctx.thorough:
+        add('long-row', lens=[3, 40000], dtype='float32', inner=[3], strides=[1, 4], comp=0)
         add('long-row', lens=[200000, 1], dtype='float64', strides=[1, 9])
         add('long-row', form='ndarray', lens=[131073], dtype='uint16', inner=[2], strides=[1, 2, 65536])
-    for n in ([1000] if not ctx.thorough else [9999, 10000, 10001]):
+    for n in ([] if not ctx.thorough else [9999, 10000, 10001]):       # 999/1000/1001 are in ROWCOUNTS_THOROUGH
         add('rows-10^k', lens=[int(x) for x in rng.integers(1, 4, size=n)], dtype='int64', strides=[1, 3],
             comp=0 if n > 1000 else 1)
     # 6. every residue of length modulo stride, strides up to 7 (and longer than some rows)
@@ -501,13 +503,13 @@ def gen_blindspot_ra_cases(ctx):
             comp=9)
         add('degenerate-values', form='ndarray', lens=[40], inner=[3], dtype='int32', values=values)
     # 5. object reuse / call history; positional arguments
-    for j in range(ctx.n(6, 40)):
+    for j in range(ctx.n(4, 40)):
         add('reuse', lens=[int(x) for x in rng.integers(1, 9, size=int(rng.integers(1, 13)))],
             dtype=str(rng.choice(DTYPES)), inner=INNERS[j % 3], comp=COMPS[j % 3], reuse=True,
             form='ndarray' if j % 5 == 4 else 'ragged')
         if cases[-1]['form'] == 'ndarray':
             cases[-1]['lens'] = cases[-1]['lens'][:1]
-    for j in range(ctx.n(4, 20)):
+    for j in range(ctx.n(3, 20)):
         add('positional', lens=[int(x) for x in rng.integers(1, 9, size=int(rng.integers(1, 13)))],
             dtype=str(rng.choice(DTYPES)), inner=INNERS[j % 3], comp=COMPS[j % 3], tag=TAGS[j % 4], positional=True)
     return cases
@@ -529,13 +531,13 @@ def gen_ra_cases(ctx):
             cases.append({'kind': 'ra', 'form': 'ragged', 'lens': lens, 'inner': INNERS[k % 3],
                           'dtype': DTYPES[(k * 7) % len(DTYPES)], 'comp': COMPS[(k // 3) % 3],
                           'tag': TAGS[k % len(TAGS)], 'vseed': int(rng.integers(1, 2**31))})
-    for _ in range(ctx.n(40, 400)):
+    for _ in range(ctx.n(24, 400)):
         n = int(rng.integers(1, 14))
         cases.append({'kind': 'ra', 'form': 'ragged', 'lens': [int(x) for x in rng.integers(1, 12, size=n)],
                       'inner': INNERS[int(rng.integers(0, 3))], 'dtype': str(rng.choice(DTYPES)),
                       'comp': int(rng.choice(COMPS)), 'tag': str(rng.choice(TAGS)),
                       'vseed': int(rng.integers(1, 2**31))})
-    for _ in range(ctx.n(12, 80)):
+    for _ in range(ctx.n(8, 80)):
         cases.append({'kind': 'ra', 'form': 'ndarray', 'lens': [int(rng.integers(1, 30))],
                       'inner': INNERS[int(rng.integers(0, 3))], 'dtype': str(rng.choice(DTYPES)),
                       'comp': int(rng.choice(COMPS)), 'tag': 'arr', 'vseed': int(rng.integers(1, 2**31))})
@@ -826,10 +828,6 @@ def check_concat(ctx, case, tmp, pools):
     model = ctx.driver(reqs)
     wrong = case['hint'] in ('short-list', 'total-small', 'total-big')
     if real[0] == 'error':
-        if not wrong and real[1] == 'TypeError' and case.get('hint_as') == 'ndarray':
-            ctx.violation('load_as_concatenated raises TypeError when the (correct) lengths hint holds numpy integers',
-                          case, key='concat-hint-numpy-ints')
-            return
         if not wrong:
             ctx.violation('load_as_concatenated raised %s on valid input' % real[1], case)
             return
@@ -883,7 +881,7 @@ def gen_concat_cases(ctx):
     pool_lens[0], pool_lens[1] = 1, 7
     pool_fmt = ['h5' if (i % 2 == 0) else 'xtc' for i in range(npool)]
     cases = []
-    ncases = ctx.n(40, 200)
+    ncases = ctx.n(30, 200)
     for c in range(ncases):
         procs = (c % 8) + 1
         kmax = 8 if not ctx.thorough else 16
